@@ -397,24 +397,47 @@ public class GrolPrims {
     }
     public static Value F64TruncToI64(final Value a) { double x = d(a); return toI64(x < 0 ? Math.ceil(x) : Math.floor(x)); }
     public static Value F64RoundToI64(final Value a) { return toI64(goRound(d(a))); }
-    // Go strconv.ParseInt(s, 0, 64) without underscores: sign, 0x 0o 0b 0 prefixes; "" when it fails
+    // Go strconv.ParseInt(s, 0, 64): sign, 0x 0o 0b 0 prefixes, underscores as digit separators; "" when it fails
+    private static boolean underscoreOK(String s) {
+        char i = '^';
+        if (s.length() >= 1 && (s.charAt(0) == '-' || s.charAt(0) == '+')) { s = s.substring(1); }
+        boolean hex = false;
+        if (s.length() >= 2 && s.charAt(0) == '0') {
+            char c = Character.toLowerCase(s.charAt(1));
+            if (c == 'b' || c == 'o' || c == 'x') { i = '0'; hex = c == 'x'; s = s.substring(2); }
+        }
+        for (int k = 0; k < s.length(); k++) {
+            char c = s.charAt(k), lc = Character.toLowerCase(c);
+            if ((c >= '0' && c <= '9') || (hex && lc >= 'a' && lc <= 'f')) { i = '0'; continue; }
+            if (c == '_') { if (i != '0') { return false; } i = '_'; continue; }
+            if (i == '_') { return false; }
+            i = '!';
+        }
+        return i != '_';
+    }
     public static Value I64ParseBase0(final Value a) {
         String x = str(a);
         try {
-            if (x.isEmpty() || x.indexOf('_') >= 0) { return new StringValue(""); }
+            if (x.isEmpty()) { return new StringValue(""); }
             boolean neg = false;
             int i = 0;
             if (x.charAt(0) == '+' || x.charAt(0) == '-') { neg = x.charAt(0) == '-'; i = 1; }
             String body = x.substring(i);
             if (body.isEmpty()) { return new StringValue(""); }
             int radix = 10;
-            String lower = body.toLowerCase();
-            if (lower.startsWith("0x")) { radix = 16; body = body.substring(2); }
-            else if (lower.startsWith("0b")) { radix = 2; body = body.substring(2); }
-            else if (lower.startsWith("0o")) { radix = 8; body = body.substring(2); }
-            else if (body.length() > 1 && body.charAt(0) == '0') { radix = 8; body = body.substring(1); }
+            if (body.charAt(0) == '0') {
+                char c = body.length() >= 3 ? Character.toLowerCase(body.charAt(1)) : ' ';
+                if (c == 'x') { radix = 16; body = body.substring(2); }
+                else if (c == 'b') { radix = 2; body = body.substring(2); }
+                else if (c == 'o') { radix = 8; body = body.substring(2); }
+                else if (body.length() > 1) { radix = 8; body = body.substring(1); }
+            }
+            if (body.indexOf('_') >= 0) {
+                if (!underscoreOK(x)) { return new StringValue(""); }
+                body = body.replace("_", "");
+            }
             if (body.isEmpty()) { return new StringValue(""); }
-            for (int k = 0; k < body.length(); k++) { if (Character.digit(body.charAt(k), radix) < 0 || body.charAt(k) > 0x7f) { return new StringValue(""); } }
+            for (int k = 0; k < body.length(); k++) { if (body.charAt(k) > 0x7f || Character.digit(body.charAt(k), radix) < 0) { return new StringValue(""); } }
             java.math.BigInteger v = new java.math.BigInteger(body, radix);
             if (neg) { v = v.negate(); }
             if (v.bitLength() > 63) { return new StringValue(""); }
